@@ -80,14 +80,17 @@ class SliceAccessor(Accessor):
     def __getitem__(self, subscript):
         if isinstance(subscript, slice):
             # Acquiris Quodcumquae Rapis
+            # Resolve the slice as segyio's line accessors do: defaults follow the sign of the step (not the
+            # order of the axis) and line numbers which are not in the file are skipped
             start, stop, step = subscript.start, subscript.stop, subscript.step
-            if step is None:
-                step = int(self.keys_object[1] - self.keys_object[0])
+            keys = [int(key) for key in self.keys_object]
+            increasing = step is None or step > 0
             if start is None:
-                start = int(self.keys_object[0])
+                start = min(keys) if increasing else max(keys)
             if stop is None:
-                stop = int(self.keys_object[-1] + 1)
-            return [self.values_function(index) for index in range(start, stop, step)]
+                stop = max(keys) + 1 if increasing else min(keys) - 1
+            line_numbers = range(*slice(start, stop, step).indices(max(keys) + 1))
+            return [self.values_function(index) for index in line_numbers if index in keys]
         else:
             return self.values_function(subscript)
 
